@@ -131,8 +131,39 @@ impl CertificateSigningRequestParams {
 		};
 		let raw = info.subject_pki.subject_public_key.data.to_vec();
 
-		if let Some(extensions) = csr.requested_extensions() {
-			for ext in extensions {
+		// A request is either honoured completely or refused. x509-parser only looks at the first
+		// extensionRequest attribute and at its first value, so anything beyond that (as well as
+		// a repeated extension) would silently be dropped.
+		let mut extension_requests =
+			info.iter_attributes()
+				.filter_map(|attr| match attr.parsed_attribute() {
+					x509_parser::cri_attributes::ParsedCriAttribute::ExtensionRequest(
+						requested,
+					) => Some((attr, requested)),
+					_ => None,
+				});
+		if let Some((attr, requested)) = extension_requests.next() {
+			if extension_requests.next().is_some() {
+				return Err(Error::UnsupportedExtension);
+			}
+			let (first_value, set_header) =
+				x509_parser::der_parser::asn1_rs::Header::from_der(attr.value)
+					.map_err(|_| Error::CouldNotParseCertificationRequest)?;
+			if set_header.length().definite().ok() != Some(first_value.len()) {
+				return Err(Error::UnsupportedExtension);
+			}
+			let mut seen = Vec::new();
+			for ext in &requested.extensions {
+				if seen.contains(&&ext.oid) {
+					return Err(Error::UnsupportedExtension);
+				}
+				seen.push(&ext.oid);
+			}
+			for ext in requested
+				.extensions
+				.iter()
+				.map(|ext| ext.parsed_extension())
+			{
 				match ext {
 					x509_parser::extensions::ParsedExtension::KeyUsage(key_usage) => {
 						// This x509 parser stores flags in reversed bit BIT STRING order
